@@ -414,10 +414,15 @@ impl PrettyPrint for TypeExpression {
             TypeExpression::Divide(_, lhs, rhs) => {
                 lhs.pretty_print() + m::space() + m::operator("/") + m::space() + with_parens(rhs)
             }
+            // written with a unicode exponent (`Length²`): keep that spelling
+            TypeExpression::Power(None, lhs, _, exp) if exp.is_integer() => {
+                with_parens(lhs) + m::operator(crate::arithmetic::pretty_exponent(exp))
+            }
             TypeExpression::Power(_, lhs, _, exp) => {
                 with_parens(lhs)
                     + m::operator("^")
-                    + if exp.is_positive() {
+                    // negative and fractional exponents need parentheses to be read back
+                    + if exp.is_positive() && exp.is_integer() {
                         m::value(format_compact!("{exp}"))
                     } else {
                         m::operator("(") + m::value(format_compact!("{exp}")) + m::operator(")")
